@@ -1074,7 +1074,7 @@ async def _dead_connection_main(case: dict) -> dict:
 
     loop = asyncio.get_running_loop()
     backend = VerifBackend()
-    res: dict[str, Any] = {"thrown": 0, "thrown_injected": 0, "parse_errors": 0, "run": 0, "last_tick": -1, "starved": False, "max_run": 0, "disconnected": [], "handler_errors": []}
+    res: dict[str, Any] = {"thrown": 0, "thrown_injected": 0, "parse_errors": 0, "valid_requests": 0, "run": 0, "last_tick": -1, "starved": False, "max_run": 0, "disconnected": [], "handler_errors": []}
     FAULTY = 41000
 
     class Handler(AsyncStreamRequestHandler):  # type: ignore[type-arg]
@@ -1085,6 +1085,15 @@ async def _dead_connection_main(case: dict) -> dict:
                     request = yield
                     await client.send_packet(request)
             # (the counters live outside the generator: a handler that *returns* on an error is restarted by the server)
+            def resumed(what: BaseException | None) -> None:
+                tick = loop.ticks  # type: ignore[attr-defined]
+                res["run"] = res["run"] + 1 if tick == res["last_tick"] else 1
+                res["last_tick"] = tick
+                res["max_run"] = max(res["max_run"], res["run"])
+                if res["run"] >= STARVE_LIMIT:
+                    res["starved"] = True
+                    raise _Starved(f"{res['run']} requests/errors delivered to the handler within one event-loop iteration") from what
+
             while True:
                 try:
                     request = yield case["idle_timeout"]
@@ -1100,32 +1109,33 @@ async def _dead_connection_main(case: dict) -> dict:
                         res["thrown_injected"] += 1
                     if isinstance(exc, StreamProtocolParseError):
                         res["parse_errors"] += 1
-                    tick = loop.ticks  # type: ignore[attr-defined]
-                    res["run"] = res["run"] + 1 if tick == res["last_tick"] else 1
-                    res["last_tick"] = tick
-                    res["max_run"] = max(res["max_run"], res["run"])
-                    if res["run"] >= STARVE_LIMIT:
-                        res["starved"] = True
-                        raise _Starved(f"{res['run']} errors thrown into the handler within one event-loop iteration") from exc
+                    resumed(exc)
                     if case["handler"] == "return-on-error":
                         return  # "this request failed": the server starts a fresh generator for the next one
                     continue
-                await client.send_packet(request)
+                res["valid_requests"] += 1
+                resumed(None)
+                if case["errno"] != "VALID":
+                    await client.send_packet(request)
 
         async def on_disconnection(self, client: Any) -> None:
             res["disconnected"].append(int(client.extra(INETClientAttribute.remote_address).port))
 
     proto: Any = BufferedStreamProtocol(StringLineSerializer()) if case["buffered"] else StreamProtocol(StringLineSerializer())
-    srv = AsyncTCPNetworkServer(None, 0, proto, Handler(), backend)
+    tls = bool(case.get("tls"))
+    skw: dict[str, Any] = {"ssl": _server_ctx()} if tls else {}
+    srv = AsyncTCPNetworkServer(None, 0, proto, Handler(), backend, **skw)
     up = asyncio.Event()
     serve_task = asyncio.create_task(srv.serve_forever(is_up_event=up))
     await up.wait()
     listener = backend.tcp_listeners[-1]
+    clients: dict[int, _StreamClient] = {}
     mems: dict[int, MemStreamTransport] = {}
     for port in [FAULTY] + [42001 + i for i in range(case["healthy"])]:
-        m = MemStreamTransport(backend, peername=("127.0.0.1", port))
-        mems[port] = m
-        listener.connect(m)
+        c = _StreamClient(backend, port, tls)
+        clients[port] = c
+        mems[port] = c.tr
+        c.connect(listener)
     expected: dict[int, list[bytes]] = {p: [] for p in mems if p != FAULTY}
     t = 0.25
     for j, gap in enumerate(case["request_gaps"]):
@@ -1133,13 +1143,23 @@ async def _dead_connection_main(case: dict) -> dict:
         for p in expected:
             payload = f"h{p}-{j}\n".encode()
             expected[p].append(payload)
-            loop.call_at(t, mems[p].feed, payload)
+            loop.call_at(t, clients[p].send, payload)
     if case["faulty_request_first"]:
-        loop.call_at(0.125, mems[FAULTY].feed, b"hello\n")
+        loop.call_at(0.125, clients[FAULTY].send, b"hello\n")
     exc: BaseException
-    if case["errno"] == "PARSE":
-        # not a dead connection but a hostile one: a burst of malformed frames in one segment
-        loop.call_at(case["fault_at"], mems[FAULTY].feed, b"\xff\n" * case["malformed"])
+    if case["errno"] in ("PARSE", "VALID"):
+        # not a dead connection but a hostile / greedy one: a burst of malformed (or valid) frames, in one segment or
+        # - over TLS - one frame per record
+        frame = b"\xff\n" if case["errno"] == "PARSE" else b"ok\n"
+
+        def burst() -> None:
+            if tls and case.get("per_record"):
+                for _ in range(case["malformed"]):
+                    clients[FAULTY].send(frame)
+            else:
+                clients[FAULTY].send(frame * case["malformed"])
+
+        loop.call_at(case["fault_at"], burst)
         exc = None  # type: ignore[assignment]
     elif case["errno"] in DISCONNECT_ERRORS:
         exc = DISCONNECT_ERRORS[case["errno"]](104, case["errno"])
@@ -1151,7 +1171,7 @@ async def _dead_connection_main(case: dict) -> dict:
         loop.call_at(case["fault_at"], mems[FAULTY].feed_error, exc)
     await asyncio.sleep(t + 2.0)
     res["serving"] = not serve_task.done()
-    res["echoes"] = {p: bytes(mems[p].sent) for p in expected}
+    res["echoes"] = {p: b"".join(line + b"\n" for line in clients[p].received_lines()) for p in expected}
     res["expected"] = {p: b"".join(v) for p, v in expected.items()}
     res["faulty_closed"] = mems[FAULTY].closed
     res["disconnected_before_shutdown"] = list(res["disconnected"])
@@ -1175,9 +1195,9 @@ def run_dead_connection_case(case: dict) -> Outcome:
         raise Violation(
             "event-loop-starved",
             (
-                f"{case.get('malformed')} malformed frames of one client were thrown into its (tolerant) handler as parse errors, {STARVE_LIMIT} of them "
-                "in a row without the event loop running in between: every other client is starved for as long as that client keeps sending garbage"
-                if case["errno"] == "PARSE"
+                f"{case.get('malformed')} {'malformed' if case['errno'] == 'PARSE' else 'valid'} frames of one client ({'TLS, ' + ('one per record' if case.get('per_record') else 'one write') if case.get('tls') else 'plain'}) were "
+                f"delivered to its handler, {STARVE_LIMIT} of them in a row without the event loop running in between: every other client is starved for as long as that client keeps sending"
+                if case["errno"] in ("PARSE", "VALID")
                 else f"the dead connection's error ({case['errno']}) was thrown into its (tolerant) handler {STARVE_LIMIT} times in a row without the "
                 "event loop running in between: every other client is starved for as long as that handler keeps going"
             ),
@@ -1201,12 +1221,14 @@ def run_dead_connection_case(case: dict) -> Outcome:
             )
         if FAULTY_PORT_DEAD not in r["disconnected_before_shutdown"] or not r["faulty_closed"]:
             raise Violation("disconnection-hook", f"{case['errno']}: on_disconnection() did not run / the connection was not closed", **detail)
+    if case["errno"] == "VALID" and r["valid_requests"] < case["malformed"]:
+        raise Violation("requests-missing", f"{case['malformed']} valid frames sent by the greedy client, {r['valid_requests']} reached its handler", **detail)
     if case["errno"] == "PARSE" and case["handler"] != "idle-timeout" and r["parse_errors"] != case["malformed"]:
         raise Violation("parse-errors-miscounted", f"{case['malformed']} malformed frames sent, {r['parse_errors']} parse errors reached the tolerant handler", **detail)
     for p, exp in r["expected"].items():
         if r["echoes"][p] != exp:
             raise Violation("healthy-client-affected", f"healthy client {p} got {len(r['echoes'][p])} of {len(exp)} echoed bytes", **detail)
-    classes = [f"errno-{case['errno']}", f"handler-{case['handler']}", "handler-left" if r["handler_errors"] or FAULTY_PORT_DEAD in r["disconnected"] else "handler-kept-going"]
+    classes = [f"errno-{case['errno']}", "tls" if case.get("tls") else "plain", f"handler-{case['handler']}", "handler-left" if r["handler_errors"] or FAULTY_PORT_DEAD in r["disconnected"] else "handler-kept-going"]
     return Outcome(nontrivial=r["thrown"] >= 2, classes=tuple(classes), note=f"thrown={r['thrown']} longest run within one loop iteration={r['max_run']}")
 
 
@@ -1216,7 +1238,9 @@ FAULTY_PORT_DEAD = 41000
 @st.composite
 def st_dead_connection_case(draw: st.DrawFn, tier: str) -> dict:
     return {
-        "errno": draw(st.sampled_from(sorted(DEAD_ERRNOS) + sorted(DISCONNECT_ERRORS) + ["PARSE", "PARSE"])),
+        "errno": draw(st.sampled_from(sorted(DEAD_ERRNOS) + sorted(DISCONNECT_ERRORS) + ["PARSE", "PARSE", "PARSE", "VALID", "VALID"])),
+        "tls": draw(st.booleans()),
+        "per_record": draw(st.sampled_from([True, True, False])),
         "malformed": draw(st.sampled_from([3, 60, 500, 3000])),
         "handler": draw(st.sampled_from(["idle-timeout", "catch-all", "return-on-error"])),
         "idle_timeout": draw(st.sampled_from([None, 0.5, 5.0, 0.0])),  # 0: a polling handler
@@ -1246,7 +1270,7 @@ CHECK = Check(
     layers=[
         Layer("faults", st_case, run_faults_case, {"quick": 2000, "thorough": 8000}),
         Layer("rst", st_rst_case, run_rst_case, {"quick": 20, "thorough": 40}, case_timeout_s=120.0),
-        Layer("dead-connection", st_dead_connection_case, run_dead_connection_case, {"quick": 150, "thorough": 800}),
+        Layer("dead-connection", st_dead_connection_case, run_dead_connection_case, {"quick": 250, "thorough": 1200}),
     ],
     assumptions=[
         "only Exception subclasses are injected (BaseExceptions such as KeyboardInterrupt are designed to stop the server)",
